@@ -15,12 +15,40 @@ theorem mode_shaped_doc (k : String) (gs : Fields)
   rcases hk with rfl | rfl | rfl | rfl | rfl <;>
   simp [mode, dateOps, datePartOps, wholeOps, unaryArithOps, groupingOps]
 
+theorem dhas_three (k : String) (k1 k2 k3 : String) (v1 v2 v3 : Val)
+    (h : dhas k [(k1, v1), (k2, v2), (k3, v3)] = true) : k1 = k ∨ k2 = k ∨ k3 = k := by
+  simp only [dhas, dget] at h
+  by_cases a : k1 = k
+  · exact Or.inl a
+  · by_cases b : k2 = k
+    · exact Or.inr (Or.inl b)
+    · by_cases d : k3 = k
+      · exact Or.inr (Or.inr d)
+      · simp [a, b, d] at h
+
+/-- three fields among which `if`, `then` and `else` occur: there is no other field -/
+theorem cond_keys (gs : Fields) (h : (dhas "if" gs && dhas "then" gs && dhas "else" gs) = true)
+    (hl : gs.length = 3) :
+    gs.any (fun kv => !(["if", "then", "else"].contains kv.1)) = false := by
+  match gs, hl with
+  | [(k1, v1), (k2, v2), (k3, v3)], _ =>
+    simp only [Bool.and_eq_true] at h
+    have hi := dhas_three "if" k1 k2 k3 v1 v2 v3 h.1.1
+    have ht := dhas_three "then" k1 k2 k3 v1 v2 v3 h.1.2
+    have he := dhas_three "else" k1 k2 k3 v1 v2 v3 h.2
+    rcases hi with rfl | rfl | rfl <;> rcases ht with ht | ht | ht <;>
+      first
+        | (exact absurd ht (by decide))
+        | (subst ht
+           rcases he with he | he | he <;>
+             first
+               | (exact absurd he (by decide))
+               | (subst he; simp))
+
 /-- `$cond: {if, then, else}` -/
 theorem cond_doc_case (c : Ctx) (root : Val) (env : Env) (hr : EnvRel c root env) (gs : Fields)
     (hsub : AllSubFields Agrees gs)
-    (hre : (if (dhas "if" gs && dhas "then" gs && dhas "else" gs) = true then
-          (if gs.length ≠ 3 then ["laxargs"] else []) else ["condkeys"]) ++
-        rAt root env "if" gs ++ rAt root env "then" gs ++ rAt root env "else" gs = [])
+    (hre : rAt root env "if" gs ++ rAt root env "then" gs ++ rAt root env "else" gs = [])
     (res : Option Val)
     (hres : (if (!(dhas "if" gs && dhas "then" gs && dhas "else" gs) || gs.length ≠ 3) = true then
           (Except.error Err.opFail : R (Option Val))
@@ -28,24 +56,27 @@ theorem cond_doc_case (c : Ctx) (root : Val) (env : Env) (hr : EnvRel c root env
           if Spec.toBool (← sAt root env "if" gs) then sAt root env "then" gs
           else sAt root env "else" gs) = .ok res) :
     eval c (.doc [("$cond", .doc gs)]) = .ok res := by
-  obtain ⟨h123, h4⟩ := append_nil2 hre
-  obtain ⟨h12, h3⟩ := append_nil2 h123
-  obtain ⟨h1, h2⟩ := append_nil2 h12
-  have hkeys : (dhas "if" gs && dhas "then" gs && dhas "else" gs) = true := by
-    cases hk : (dhas "if" gs && dhas "then" gs && dhas "else" gs) with
-    | true => rfl
-    | false => rw [hk] at h1; simp at h1
-  simp only [Bool.and_eq_true] at hkeys
-  obtain ⟨vi, hvi⟩ := dhas_dget hkeys.1.1
-  obtain ⟨vt, hvt⟩ := dhas_dget hkeys.1.2
-  obtain ⟨ve, hve⟩ := dhas_dget hkeys.2
-  have e1 := at_agree c root env hr "if" gs vi hvi hsub h2
-  have e2 := at_agree c root env hr "then" gs vt hvt hsub h3
-  have e3 := at_agree c root env hr "else" gs ve hve hsub h4
-  rw [cond_doc c gs (by simp [hkeys]), e1, e2, e3]
+  obtain ⟨h12, h4⟩ := append_nil2 hre
+  obtain ⟨h2, h3⟩ := append_nil2 h12
   split at hres
   · cases hres
-  · simpa [bind, Except.bind] using hres
+  · rename_i hcond
+    have hcond' : (!(dhas "if" gs && dhas "then" gs && dhas "else" gs) || gs.length ≠ 3) = false := by
+      simpa using hcond
+    simp only [Bool.or_eq_false_iff, Bool.not_eq_false', decide_eq_false_iff_not, ne_eq,
+      Decidable.not_not] at hcond'
+    have hkeys0 := hcond'.1
+    have hx := cond_keys gs hkeys0 hcond'.2
+    have hkeys := hkeys0
+    simp only [Bool.and_eq_true] at hkeys
+    obtain ⟨vi, hvi⟩ := dhas_dget hkeys.1.1
+    obtain ⟨vt, hvt⟩ := dhas_dget hkeys.1.2
+    obtain ⟨ve, hve⟩ := dhas_dget hkeys.2
+    have e1 := at_agree c root env hr "if" gs vi hvi hsub h2
+    have e2 := at_agree c root env hr "then" gs vt hvt hsub h3
+    have e3 := at_agree c root env hr "else" gs ve hve hsub h4
+    rw [cond_doc c gs hkeys0 hx, e1, e2, e3]
+    simpa [bind, Except.bind] using hres
 
 /-- `$switch` -/
 theorem switch_case (c : Ctx) (root : Val) (env : Env) (hr : EnvRel c root env) (gs : Fields)
@@ -108,6 +139,7 @@ theorem switch_case (c : Ctx) (root : Val) (env : Env) (hr : EnvRel c root env) 
 theorem let_unfold (c : Ctx) (gs : Fields) :
     eval c (.doc [("$let", .doc gs)]) =
       (if (!(dhas "vars" gs) || !(dhas "in" gs)) = true then .error .opFail
+       else if gs.any (fun kv => !(["vars", "in"].contains kv.1)) = true then .error .opFail
        else match dget "vars" gs with
          | some (.doc _) =>
            (evalVarsAt c gs).bind (fun r =>
@@ -121,14 +153,35 @@ theorem let_unfold (c : Ctx) (gs : Fields) :
     Bool.false_eq_true, if_false, evalDoc, h1, h2, evalOp, if_true]
   cases hv : dget "vars" gs with
   | none => simp
-  | some w => cases w <;> simp <;> rfl
+  | some w => cases w <;> simp <;> (try split) <;> (try split) <;> rfl
+
+theorem dhas_two (k : String) (k1 k2 : String) (v1 v2 : Val)
+    (h : dhas k [(k1, v1), (k2, v2)] = true) : k1 = k ∨ k2 = k := by
+  simp only [dhas, dget] at h
+  by_cases a : k1 = k
+  · exact Or.inl a
+  · by_cases b : k2 = k
+    · exact Or.inr b
+    · simp [a, b] at h
+
+/-- two fields among which `vars` and `in` occur: there is no other field -/
+theorem let_keys (gs : Fields) (h1 : dhas "vars" gs = true) (h2 : dhas "in" gs = true)
+    (hl : gs.length = 2) : gs.any (fun kv => !(["vars", "in"].contains kv.1)) = false := by
+  match gs, hl with
+  | [(k1, v1), (k2, v2)], _ =>
+    have hv := dhas_two "vars" k1 k2 v1 v2 h1
+    have hi := dhas_two "in" k1 k2 v1 v2 h2
+    rcases hv with rfl | rfl <;> rcases hi with hi | hi <;>
+      first
+        | (exact absurd hi (by decide))
+        | (subst hi; simp)
 
 /-- `$let` -/
 theorem let_case (c : Ctx) (root : Val) (env : Env) (hr : EnvRel c root env) (gs : Fields)
     (hsub : AllSubFields Agrees gs)
     (hre : (match dget "vars" gs with
          | some (.doc vs) =>
-           if (gs.length ≠ 2 || !(vs.all (fun kv => userVarName kv.1))) = true then ["laxargs"] else []
+           if (!(vs.all (fun kv => userVarName kv.1))) = true then ["laxargs"] else []
          | _ => []) ++
         rVarsAt root env gs ++
         (match sVarsAt root env gs with
@@ -164,7 +217,11 @@ theorem let_case (c : Ctx) (root : Val) (env : Env) (hr : EnvRel c root env) (gs
         simp only [hv, hin] at hres
         split at hres
         · cases hres
-        · rw [sVarsAt_eq root env gs vs hv] at hres h3
+        · rename_i hlax
+          have hlen : gs.length = 2 := by
+            by_contra hne
+            exact hlax (by simp [hne])
+          rw [sVarsAt_eq root env gs vs hv] at hres h3
           rw [rVarsAt_eq root env gs vs hv] at h2
           have hsv : AllSubFields Agrees vs := (hsub.mem (dget_mem' hv)).fields
           obtain ⟨bs, hbs, hrest⟩ := vars_agree c root env hr vs hsv h2
@@ -178,7 +235,7 @@ theorem let_case (c : Ctx) (root : Val) (env : Env) (hr : EnvRel c root env) (gs
           have hvars : dhas "vars" gs = true := by simp [dhas, hv]
           rw [let_unfold, evalVarsAt_eq c gs vs hv, hxs]
           simp only [hvars, hin, Bool.not_true, Bool.or_self, Bool.false_eq_true, if_false, hv,
-            Except.bind]
+            let_keys gs hvars hin hlen, Except.bind]
           obtain ⟨vin, hvin⟩ := dhas_dget hin
           subst hbx
           have hr' := hr.bindAll xs
